@@ -23,6 +23,9 @@ Variants == {<<b, s>> : b \in Batches, s \in Schedulers}
 Valid(s) == /\ (s.builder = "plane" => s.scan = "none")
             /\ (s.scan = "none" => s.detector \in {"waves", "pixelated"})
             /\ (s.ctf => s.detector \in {"waves", "pixelated"})
+            \* ctf_series: the CTF that is applied carries a weighted defocus series centred on zero (one member has defocus exactly 0), averaged
+            \* (ensemble_mean): with an averaged frozen-phonon potential there are then two averaged ensemble axes
+            /\ (s.ctf_series => s.ctf /\ s.tilt = "none" /\ s.exit_planes = "none")
             \* tilt series are combined with the plainest pipelines (the tilt axis is one more ensemble axis in front of everything else)
             /\ (s.tilt # "none" => /\ s.exit_planes = "none" /\ ~s.ctf /\ s.potential \in {"atoms", "fp_nomean", "array"}
                                    /\ s.detector \in {"waves", "annular", "pixelated"} /\ s.scan \in {"none", "custom", "grid"})
